@@ -12,6 +12,8 @@ open Scrapli Scrapli.Resolve
       cfgs = `;` separated `<path>:<port|->:<user>:<identity>` ("." = none); sshDefault = `<port|->:<user>:<identity>`
     -> `ok R=<host>,<port>,<user>,<password>,<key>,<passphrase>,<strict>,<cfg>,<kh> B=<host>,<port> PL=<field>=<v>;… AV=<hex list> PR=<parse> EF=<eff>`
      | `err <name>`
+  `hist <case>|<case>|…` with <case> = the 18 fields of `resolve` joined by `+` (constructions in ONE process,
+      cache of parsed ssh configs shared, starting empty) -> the `ok R=… B=… PL=… AV=…` / `err …` replies joined by ` || `
   `parse <argv hex list>` -> `<parse>`
       <parse> = `ok:<dest>:<opts>:<command hex list>` with opts = `;` separated `<letter><hex or ~>` ("." = none) | `err:<name>`
 -/
@@ -88,7 +90,7 @@ def encEff : Except ParseErr Eff → String
 
 def b01 (b : Bool) : String := if b then "1" else "0"
 
-def handleResolve : List String → Option String
+def decCase : List String → Option (Fixes × Args × SshConfigView)
   | [fx, tr, host, port, user, pw, key, pp, strict, cfgA, khA, ts, tt, extra, home, files, cfgs, sd] => do
     let fx ← decFixes fx
     let t ← decTransport tr
@@ -113,19 +115,40 @@ def handleResolve : List String → Option String
     let v : SshConfigView := { home := home, isFile := fun p => files.contains p,
                                lookup := fun p => match cfgs.find? (·.1 == p) with | some (_, h) => h | none => {},
                                sshDefault := sd }
-    match resolve fx a v with
-    | .error e => pure s!"err {errName e}"
-    | .ok r =>
-      let d := r.reported
-      let rep := ",".intercalate [encStr d.host, toString d.port, encStr d.user, encStr d.password, encStr d.key,
-                                  encStr d.passphrase, b01 d.strict, encStr d.cfgFile, encStr d.khFile]
-      let pr := if isSystem t then encParse (parseSshArgv r.argv) else "-"
-      pure s!"ok R={rep} B={encStr r.bta.host},{r.bta.port} PL={encPlugin r.plugin} AV={encList r.argv} PR={pr} EF={encEff (effective t r v)}"
+    pure (fx, a, v)
   | _ => none
+
+def encResolved (full : Bool) (a : Args) (v : SshConfigView) : Except Err Resolved → String
+  | .error e => s!"err {errName e}"
+  | .ok r =>
+    let t := a.transport
+    let d := r.reported
+    let rep := ",".intercalate [encStr d.host, toString d.port, encStr d.user, encStr d.password, encStr d.key,
+                                encStr d.passphrase, b01 d.strict, encStr d.cfgFile, encStr d.khFile]
+    let head := s!"ok R={rep} B={encStr r.bta.host},{r.bta.port} PL={encPlugin r.plugin} AV={encList r.argv}"
+    if full then
+      let pr := if isSystem t then encParse (parseSshArgv r.argv) else "-"
+      s!"{head} PR={pr} EF={encEff (effective t r v)}"
+    else head
+
+def handleResolve (fs : List String) : Option String := do
+  let (fx, a, v) ← decCase fs
+  pure (encResolved true a v (resolve fx a v))
+
+/-- `hist <case>|<case>|…`, each <case> = the 18 fields of `resolve` joined by `+` -/
+def handleHist (steps : List String) : Option String := do
+  let cases ← steps.mapM fun st => decCase (st.splitOn "+")
+  match cases with
+  | [] => pure "."
+  | (fx, _, _) :: _ =>
+    let hist := cases.map fun (_, a, v) => (a, v)
+    let rs := runHistory fx [] hist
+    pure (" || ".intercalate ((hist.zip rs).map fun ((a, v), r) => encResolved false a v r))
 
 def handleLine (line : String) : String :=
   match line.trimAscii.toString.splitOn " " with
   | "resolve" :: rest => (handleResolve rest).getD "bad-op"
+  | ["hist", steps] => (handleHist (steps.splitOn "|")).getD "bad-op"
   | ["parse", argv] =>
     match decList argv with
     | some ws => encParse (parseSshArgv ws)
